@@ -103,6 +103,16 @@ if __name__ == "__main__":
     dirs = sorted(glob.glob(os.path.join(ROOT, "seeded", "*")))
     if only:
         dirs = [d for d in dirs if os.path.basename(d) in only]
+    # round-robin over the properties: checks of one property are serialised (they share a harness cache and, for the
+    # translated ones, the generated model), so neighbouring entries must belong to different properties to run in parallel
+    byp = {}
+    for d in dirs:
+        byp.setdefault(os.path.basename(d)[:3], []).append(d)
+    dirs = []
+    while any(byp.values()):
+        for k in sorted(byp):
+            if byp[k]:
+                dirs.append(byp[k].pop(0))
     with concurrent.futures.ThreadPoolExecutor(jobs) as ex:
         for sid, res in ex.map(run_one, dirs):
             print(sid, "reported" if res.get("reported") else "NOT REPORTED", res.get("violation_kinds"), res.get("wall_s"), flush=True)
